@@ -20,6 +20,12 @@ CHECKS = {
          "checked against the property verbatim (monitor on emitted lines) and against a reference automaton that says exactly which calls must be rejected and how.",
          "Trusted: my modal interpreter and the reference automaton (documented rejection conditions); value alphabets; canonical form drops position/temperatures.",
          "DESIGN.md §5 C02"),
+ "C03": ("E1", "model_checking",
+         "explicit-state BFS over builder histories per bounds configuration with boundary-value ladders; stream monitor on every emitted word",
+         "Per bounds configuration all histories up to the depth bound over carriers x {min,max,mid,min-ulp,max+ulp,far,NaN} are executed on the real builder; every emitted line is "
+         "checked by an independent monitor (reconstructed targets, F/S/T/temperature words) and clearly out-of-range requests must raise ValueError.",
+         "Trusted: interpreter reconstruction of targets; builder = machine coordinates (or pure translation); bounds configurations and ladders listed in the evidence.",
+         "DESIGN.md §5 C03"),
  "C05": ("E1", "model_checking",
          "explicit-state BFS over builder states x a catalogue of calls failing at each validation step; snapshot equality + differential continuation on a twin",
          "From every state reached by the state-building alphabet (depth-bounded) every catalogued failing call is executed on the real builder; a call that raises must "
